@@ -699,6 +699,9 @@ func freshShrink(o SupOpts, info core.Info, v ViolReport) (ViolReport, bool) {
 		b, _ := json.Marshal(c)
 		os.WriteFile(tf, b, 0o644)
 		cmd := workerCmd(o.Exe, []string{"exec-tape", "-prop", o.Prop, "-fp", v.Fingerprint, tf}, info.MemLimitMB)
+		if rf.GOMAXPROCS > 0 {
+			cmd.Env = append(os.Environ(), fmt.Sprintf("GOMAXPROCS=%d", rf.GOMAXPROCS))
+		}
 		outb, err := runWithTimeout(cmd, 60*time.Second)
 		used := len(c)
 		if i := strings.LastIndex(string(outb), "USED "); i >= 0 {
